@@ -14,7 +14,7 @@ PROPERTY_ID = "C14"
 SCALE = (2, 3)   # budget multiplier (quick, thorough) applied to the n=(...) of every generated sub-property
 LEVEL = "fault_enumeration"
 RULE = ("valid family: the task generators of C01 (empty sides where a score is defined, single items, duplicate times, estimates starting "
-        "earlier / running longer / disjoint, boundaries on the reference's start or end, window == frame_size, one frame, identical) through "
+        "earlier / running longer / disjoint, boundaries on the reference's start or end, window == frame_size, one frame, identical; values exactly on a validator limit) through "
         "evaluate() and every public metric function -- must return; fault family: one fault from a catalogue transcribed from the validators "
         "applied to a valid input, at every entry point whose documented pre-processing does not legitimately repair it -- must raise ValueError "
         "(InvalidChordException for chord labels) and nothing else; non-trivial = valid case in a named coincidence/degenerate class, every "
@@ -155,6 +155,60 @@ def pred_valid_large(case, ctx):
         ctx.call(pattern.evaluate, P, Q)
     ctx.event("task:" + task)
     return n >= 1200
+
+
+@st.composite
+def limit_case(draw):
+    return {"task": draw(st.sampled_from(["beat", "onset", "multipitch", "events", "frequencies"])), "n": draw(st.integers(1, 24)),
+            "step": draw(st.sampled_from([0.25, 0.5, 0.53125, 1.0, 2.0])), "side": draw(st.sampled_from(["ref", "est", "both"])),
+            "ints": draw(st.booleans()), "limit": draw(st.sampled_from([30000.0, 30000.0, 10.0, 0.0, 1e6])), "seed": draw(st.integers(0, 10 ** 6))}
+
+
+def pred_valid_limit(case, ctx):
+    """The validators reject what lies *beyond* a limit (`> max_time`, `|f| > max_freq`, `|f| < min_freq`): a value exactly on the limit is
+    valid and must be scored, the next representable value beyond it must be rejected."""
+    n, task, rs = case["n"], case["task"], np.random.RandomState(case["seed"])
+    step = float(int(case["step"]) or 1) if case["ints"] else case["step"]
+    if task in ("beat", "onset", "multipitch"):
+        T = 30000.0
+        top = T - step * np.arange(n)[::-1]
+        low = top - 8.0
+        if case["ints"]:
+            top, low = top.astype(int), low.astype(int)
+        ref, est = (top if case["side"] in ("ref", "both") else low), (top if case["side"] in ("est", "both") else low)
+        if task == "multipitch":
+            pool = [20.0, 5000.0, 440.0, 20.0 * 2 ** (1 / 12.0)]
+            rf = [np.array(rs.choice(pool, rs.randint(0, 4), replace=False)) for _ in ref]
+            ef = [np.array(rs.choice(pool, rs.randint(0, 4), replace=False)) for _ in est]
+            ctx.call(multipitch.evaluate, ref, rf, est, ef)
+            ctx.call(multipitch.validate, ref, rf, est, ef)
+            bad = np.array(ref, dtype=float); bad[-1] = np.nextafter(T, np.inf)
+            reject(ctx, "multipitch.validate", "just_beyond_max_time", lambda: multipitch.validate(bad, rf, est, ef))
+        else:
+            mod = beat if task == "beat" else onset
+            ctx.call(mod.evaluate, ref, est)
+            ctx.call(mod.validate, ref, est)
+            ctx.call(mod.f_measure, ref, est)
+            bad = np.array(est, dtype=float); bad[-1] = np.nextafter(T, np.inf)
+            reject(ctx, task + ".validate", "just_beyond_max_time", lambda: mod.validate(ref, bad))
+    elif task == "events":
+        L = case["limit"]
+        ev = L - step * np.arange(n)[::-1]
+        ev = ev[ev >= 0] if L > 0 else np.array([0.0])
+        if case["ints"]:
+            ev = ev.astype(int)
+        ctx.call(util.validate_events, ev, L)
+        reject(ctx, "util.validate_events", "just_beyond_max_time", lambda: util.validate_events(np.r_[np.asarray(ev, dtype=float), np.nextafter(L, np.inf)], L))
+    else:
+        f = np.array([20.0, 5000.0, 440.0] + list(20.0 + rs.randint(0, 4981, n)))
+        sg = rs.choice([1.0, -1.0], len(f))
+        ctx.call(util.validate_frequencies, f, 5000.0, 20.0)
+        ctx.call(util.validate_frequencies, f * sg, 5000.0, 20.0, allow_negatives=True)
+        reject(ctx, "util.validate_frequencies", "just_above_max_freq", lambda: util.validate_frequencies(np.r_[f, np.nextafter(5000.0, np.inf)], 5000.0, 20.0))
+        reject(ctx, "util.validate_frequencies", "just_below_min_freq", lambda: util.validate_frequencies(np.r_[f, np.nextafter(20.0, 0.0)], 5000.0, 20.0))
+    ctx.event("task:" + task)
+    ctx.event("dtype:" + ("int" if case["ints"] else "float"))
+    return True
 
 
 def enum_valid_keys(tier, shard, nshards):
@@ -597,6 +651,10 @@ SUBPROPS.append(SubProp("valid:separation_framewise", pred_valid_separation, str
                              "while being non-silent overall; NT = a partially silent window"))
 SUBPROPS.append(SubProp("valid:large_inputs", pred_valid_large, strategy=large_case, n=(12, 200), shards=(8, 16), floor=0.3,
                         rule="300 / 1200 / 2500-element (melody: 8x) ordinary annotations of 11 task shapes incl. the repeated-note chain that needs a long alternating path; NT = >= 1200 elements"))
+SUBPROPS.append(SubProp("valid:limit_values", pred_valid_limit, strategy=limit_case, n=(300, 4000), shards=(2, 8), floor=0.5,
+                        rule="event / frame times ending exactly on MAX_TIME (beat, onset, multipitch; float and integer dtype; reference, estimate or both), "
+                             "util.validate_events on its own limit (30000, 10, 0, 1e6), frequencies exactly on MIN_FREQ / MAX_FREQ: must be scored; the next "
+                             "representable value beyond the limit must raise ValueError; every case counts"))
 SUBPROPS.append(SubProp("valid:key_strings", pred_valid_key, enum=enum_valid_keys, shards=(1, 1), exhaustive=True,
                         rule="every key string of the documented form, incl. the module docstring's own example"))
 def make_fault_enum(task):
